@@ -280,6 +280,9 @@ SGal3TangentBase<_Derived>::ljac() const {
     ) / (Scalar(2) * theta_sq * theta_sq);
 
     Jl.template block<3, 3>(0, 6).noalias() += A * W + B * WW;
+  } else {
+    // small angle approx.: E = I/2 + W/6 + O(theta^2)
+    Jl.template block<3, 3>(0, 6).noalias() += Scalar(1. / 6.) * W;
   }
 
   // Block E * nu
@@ -440,8 +443,9 @@ void SGal3TangentBase<_Derived>::fillE(
 
   E.noalias() = I(Scalar(0.5), Scalar(0.5), Scalar(0.5)).toDenseMatrix();
 
-  // small angle approx.
+  // small angle approx.: E = I/2 + W/6 + O(theta^2)
   if (theta_sq < Constants<Scalar>::eps) {
+    E.noalias() += Scalar(1. / 6.) * so3.hat();
     return;
   }
 
